@@ -182,6 +182,7 @@ func checkC01(c *Ctx, r *Report) {
 	// parked batches must not share memory with the live buffer (a later append would overwrite them
 	// before they are uploaded or restored)
 	checkBufferFresh(m, r, "C01.R3")
+	checkPrependKeepsBoth(m, r, "C01.R3")
 
 	// ---- R4
 	if fl := needFn(m, r, "C01.R4", pkgStorage, "(*PartitionLog).Flush"); fl != nil {
@@ -424,4 +425,116 @@ func drainUseAllowed(ref ssa.Instruction, drained *ssa.Call) bool {
 		return false
 	}
 	return false
+}
+
+// checkPrependKeepsBoth: the restore helper builds the new buffer from the restored batches followed by
+// everything that is in the buffer now (what other producers appended since the drain and were, or
+// will be, acknowledged for). Accepted shapes: append(append(_, batches...), b.batches...),
+// slices.Concat(batches, b.batches), or make(len(batches)+len(b.batches)) filled by two copies at
+// offsets 0 and len(batches).
+func checkPrependKeepsBoth(m *Module, r *Report, rule string) {
+	fn := m.Func(pkgStorage, "(*WriteBuffer).Prepend")
+	key := "Prepend keeps the restored batches and everything appended since the drain, in that order"
+	if fn == nil {
+		r.unresolved(rule, key, "(*WriteBuffer).Prepend not found")
+		return
+	}
+	r.fn(fn)
+	param := ssa.Value(fn.Params[1])
+	isParam := func(v ssa.Value) bool {
+		v = strip(v)
+		if v == param {
+			return true
+		}
+		if sl, ok := v.(*ssa.Slice); ok && sl.Low == nil && strip(sl.X) == param {
+			return true
+		}
+		return false
+	}
+	isCur := func(v ssa.Value) bool {
+		_, f, _, ok := fieldOf(v)
+		return ok && f == "batches"
+	}
+	lenOf := func(v ssa.Value, pred func(ssa.Value) bool) bool {
+		lc, ok := strip(v).(*ssa.Call)
+		return ok && calleeName(&lc.Call) == "builtin.len" && pred(lc.Call.Args[0])
+	}
+	var stores []*ssa.Store
+	for _, st := range storesToField(fn, "WriteBuffer", "batches") {
+		stores = append(stores, st)
+	}
+	if len(stores) != 1 {
+		r.viol(rule, key, m.Pos(fn.Pos()), fmt.Sprintf("%d assignments to b.batches in Prepend", len(stores)))
+		return
+	}
+	v := strip(stores[0].Val)
+	why := ""
+	switch x := v.(type) {
+	case *ssa.Call:
+		n := calleeName(&x.Call)
+		switch {
+		case n == "builtin.append":
+			if !isCur(x.Call.Args[1]) {
+				why = "the last append does not add the buffer's current batches (" + describe(x.Call.Args[1]) + ")"
+				break
+			}
+			inner, ok := strip(x.Call.Args[0]).(*ssa.Call)
+			switch {
+			case ok && calleeName(&inner.Call) == "builtin.append" && isParam(inner.Call.Args[1]):
+				// append(append(base, batches...), cur...): base must be empty
+				if ms, ok := strip(inner.Call.Args[0]).(*ssa.MakeSlice); ok {
+					if k, ok := constInt(ms.Len); !ok || k != 0 {
+						why = "the restored batches are appended onto a non-empty slice"
+					}
+				} else if c0, ok := strip(inner.Call.Args[0]).(*ssa.Const); !ok || !c0.IsNil() {
+					if sl, ok := strip(inner.Call.Args[0]).(*ssa.Slice); !ok || sl.High == nil {
+						why = "the restored batches are appended onto " + describe(inner.Call.Args[0])
+					}
+				}
+			case isParam(x.Call.Args[0]):
+			case ok && strings.HasSuffix(calleeName(&inner.Call), "slices.Clone") && isParam(inner.Call.Args[0]):
+			default:
+				why = "the slice the current batches are appended to does not hold the restored batches (" + describe(x.Call.Args[0]) + ")"
+			}
+		case strings.HasSuffix(n, "slices.Concat"):
+			why = "slices.Concat arguments are not (restored, current)"
+			if sl, ok := x.Call.Args[0].(*ssa.Slice); ok {
+				if elems, ok := variadicElems(sl); ok && len(elems) == 2 && isParam(elems[0]) && isCur(elems[1]) {
+					why = ""
+				}
+			}
+		default:
+			why = "b.batches is assigned " + describe(v)
+		}
+	case *ssa.MakeSlice:
+		terms, k := flattenSum(x.Len)
+		if !(len(terms) == 2 && k == 0 && ((lenOf(terms[0], isParam) && lenOf(terms[1], isCur)) || (lenOf(terms[1], isParam) && lenOf(terms[0], isCur)))) {
+			why = "the new buffer's length is " + describe(x.Len) + ", not len(restored)+len(current): a copy beyond that length stores nothing"
+			break
+		}
+		gotA, gotB := false, false
+		for _, call := range callsIn(fn) {
+			cc := call.Common()
+			if calleeName(cc) != "builtin.copy" {
+				continue
+			}
+			dst := strip(cc.Args[0])
+			if dst == ssa.Value(x) && isParam(cc.Args[1]) {
+				gotA = true
+			}
+			if sl, ok := dst.(*ssa.Slice); ok && strip(sl.X) == ssa.Value(x) && sl.Low != nil && lenOf(sl.Low, isParam) && isCur(cc.Args[1]) {
+				gotB = true
+			}
+		}
+		if !gotA || !gotB {
+			why = "the two copies (restored at 0, current at len(restored)) are not both present"
+		}
+	default:
+		why = "b.batches is assigned " + describe(v)
+	}
+	if why == "" {
+		r.ok(rule, key, m.Pos(stores[0].Pos()), "")
+	} else {
+		r.viol(rule, key, m.Pos(stores[0].Pos()), why+" — batches appended by other producers between the drain and the failed upload would be lost although their producers are acknowledged by the next flush")
+	}
 }
